@@ -8,6 +8,7 @@ import (
 	"net/http"
 	"strings"
 	"time"
+	"unicode/utf8"
 
 	"github.com/gobwas/ws"
 	"google.golang.org/genproto/googleapis/rpc/code"
@@ -297,6 +298,12 @@ type twirpError struct {
 
 func (m *Mux) encError(w http.ResponseWriter, r *http.Request, err error) {
 	s, _ := status.FromError(err)
+	if msg := s.Message(); !utf8.ValidString(msg) {
+		// The message may quote request bytes; keep the status encodable.
+		p := s.Proto()
+		p.Message = strings.ToValidUTF8(msg, "\uFFFD")
+		s = status.FromProto(p)
+	}
 	if isTwirp := r.Header.Get("Twirp-Version") != ""; isTwirp {
 		accept := "application/json"
 
